@@ -288,7 +288,10 @@ fn apply_w3c(p: &mut W3CPresentation, provs: &mut Vec<Prov>, m: &Mut) {
                         vc.credential_subject.0.insert(k.clone(), CredentialAttributeValue::String(s.clone()));
                     }
                     Value::Number(n) => {
-                        vc.credential_subject.0.insert(k.clone(), CredentialAttributeValue::Number(n.as_i64().unwrap_or(0) as i32));
+                        // built through serde so that the harness does not depend on the integer type behind Number
+                        if let Ok(num) = serde_json::from_value::<CredentialAttributeValue>(json!(n.as_i64().unwrap_or(0))) {
+                            vc.credential_subject.0.insert(k.clone(), num);
+                        }
                     }
                     Value::Bool(b) => {
                         vc.credential_subject.0.insert(k.clone(), CredentialAttributeValue::Bool(*b));
